@@ -2,12 +2,14 @@ from lanes import *  # noqa
 
 PROP = {
         "level": "exploration",
-        "level_text": "Seeded and exhaustive-sub-space exploration with a reference classifier as oracle: every parser entry point is run under catch_unwind on 10^7 (quick) to 10^8+ (thorough) inputs - all strings up to length 3-4 over each parser's alphabet, every single-edit neighbour of thousands of well-formed texts, random strings - every parser that can be reached by casting a property value is additionally run with the same text arriving in an owned buffer, a shared buffer and as the Display output of a foreign type (all entry points of a parser must agree), and every value round trip is compared with an independent calendar / hex reference; calendar parts are converted both ways for every day 1970..9999. Held-on-what-was-observed, not a proof over all strings.",
+        "level_text": "Seeded and exhaustive-sub-space exploration with a reference classifier as oracle: every parser entry point is run under catch_unwind on 10^7 (quick) to 10^8+ (thorough) inputs - all strings up to length 3-4 over each parser's alphabet, every single-edit neighbour of thousands of well-formed texts, random strings - every parser that can be reached by casting a property value is additionally run with the same text arriving in an owned buffer, a shared buffer and as the Display output of a foreign type (all entry points of a parser must agree), and every value round trip is compared with an independent calendar / hex reference; calendar parts are converted both ways for every day 1970..9999. Round trips are also generated from PARTIAL values: traceparents with the trace id absent, the span id absent or both absent x all 256 flag bytes x edge and seeded ids (formatted through 7 entry points, parsed back through 8, formatting judged injective over neighbouring states), the values the crate builds itself (Traceparent::push + current, an incoming span context without a trace id), tracestates, span contexts in all 8 presence combinations through their property text, extents (point, empty, ordinary and inverted range, at Timestamp::MIN / MAX), typed ids / timestamps / levels / kinds captured as values and cast back from owned and shared copies, and every storage form of a path. Held-on-what-was-observed, not a proof over all strings.",
         "level_note": "Trusts the reference classifiers in harness/mon/src/bin/c15.rs (written from the documented grammars) and std's catch_unwind; the unconstrained classes listed in DESIGN.md C15/U are checked for totality only.",
         "technique": "runtime monitoring: reference-oracle monitor over exhaustive short strings, grammar near-misses and seeded random inputs, all calls under catch_unwind",
         "assumptions": [
             "reference classifiers (RFC 3339 shape, hex ids, traceparent layout, `::` paths, documented level forms) are written from the property statement, not from the parsers",
             "digits that are in the right places but out of calendar range, all-zero ids inside a traceparent, lower-case t/z and non-ASCII identifiers are unconstrained (totality only)",
+            "partial values: an absent id of a traceparent is written as the all-zero id (the W3C invalid value; no present id can be all-zero), so formatting is injective and no state is normalised away - parse(format(v)) == v is judged whenever the parser accepts the text, and that it accepts its own all-zero-id output is not demanded (unconstrained above), only counted",
+            "the crate has no extent parser: an extent's text is read back with the timestamp parser on its `..`-separated halves when it has that shape (else only injectivity and the agreement of the formatting entry points are judged); a tracestate is raw text (identity only); Level and Kind have no value outside the named variants",
         ],
         "lanes": [
             native("c15"),
